@@ -1,8 +1,31 @@
 import PybtexModel.Drv.Json
+import PybtexModel.Model.NameFormat
 open Lean
 namespace Pybtex.Drv.C11
 
-/-- driver ops of this property: (op name, handler) -/
-def handlers : List (String × (Json → Except String Json)) := []
+def errName : FmtErr → String
+  | .unbalanced => "UnbalancedBraceError"
+  | .prematureEOF => "PrematureEOF"
+  | .tokenRequired => "TokenRequired"
+  | .illegalLetters => "PybtexSyntaxError"
+  | .tooDeep => "BibTeXError"
+  | .internal => "INTERNAL"
+
+def partJ : FmtPart → Json
+  | .text s => obj [("text", strToJson s)]
+  | .part pre fc delim post => obj [("pre", strToJson pre), ("fc", optJ strToJson fc), ("delim", optJ strToJson delim), ("post", strToJson post)]
+
+def fmtname (j : Json) : Except String Json := do
+  let name ← getStr j "name"
+  let fmt ← getStr j "fmt"
+  let out := match formatName name fmt with
+    | .error e => obj [("error", Json.str (errName e))]
+    | .ok (s, rep) => obj [("str", strToJson s), ("too_many_commas", Json.bool rep)]
+  let parsed := match parseFormat fmt with
+    | .error e => obj [("error", Json.str (errName e))]
+    | .ok ps => arr (ps.map partJ)
+  pure (obj [("out", out), ("parsed", parsed)])
+
+def handlers : List (String × (Json → Except String Json)) := [("fmtname", fmtname)]
 
 end Pybtex.Drv.C11
